@@ -36,6 +36,7 @@ class SrtParagraph:
   """SRT paragraph definition class"""
 
   _EOL_SEQ_RE = re.compile(r"\n{2,}")
+  _TAG_RE = re.compile(r"<[^>]*>")
 
   def __init__(self, identifier: int):
     self._id: int = identifier
@@ -66,7 +67,8 @@ class SrtParagraph:
 
   def is_only_whitespace(self):
     """Returns whether the paragraph tex contains only whitespace or is empty"""
-    return len(self._text) == 0 or self._text.isspace()
+    text = SrtParagraph._TAG_RE.sub("", self._text)
+    return len(text) == 0 or text.isspace()
 
   def normalize_eol(self):
     """Remove line breaks at the beginning and end of the paragraph, and replace
